@@ -135,6 +135,11 @@ structure St where
   jRaw : List (Nat × String) := []        -- (parent, op text) reversed
   jDead : Bool := false
   jBars : Bool := false
+  -- real task
+  tKind : String := ""
+  tDims : List String := []
+  tCfgText : String := ""
+  tArr : List (Nat × JMsg) := []          -- written points, reversed
   runs : List RunRec := []
   branches : List String := []
   nontrivial : Bool := false
@@ -247,6 +252,79 @@ def judgeLine (st : St) (l : String) : Except Verdict St := do
   | ["j", "fin"] =>
     let (gs, sets, status) := JNode.finish st.jn.groups
     judgeJoin st l obs { groups := gs } sets status [] true
+  /- ---------------- real tasks (multiConsumer decides the interleaving) ---------------- -/
+  | "task" :: "new" :: rest =>
+    let some cfg := parseCfg rest | throw (.badop l)
+    let m := kvOf rest
+    let some dims := (splitList ((kvGet m "dims").getD "-")).mapM unesc | throw (.badop l)
+    let some rn := unesc ((kvGet m "rename").getD "%") | throw (.badop l)
+    if obs != ["ok"] then throw (.mismatch s!"task new: observed {obs}")
+    pure { st with kind := "task", tKind := (kvGet m "kind").getD "", jcfg := cfg, tDims := dims, uRename := rn,
+                   tCfgText := " ".intercalate rest, tArr := [] }
+  | "task" :: "w" :: src :: t :: rest =>
+    let some src := src.toNat? | throw (.badop l)
+    let some t := t.toInt? | throw (.badop l)
+    let some msg := parseMsg t (s!"name=m{src}" :: ("dims=" ++ renderList (st.tDims.map esc)) :: rest) | throw (.badop l)
+    if src ≥ st.jcfg.parents || st.kind != "task" then throw (.badop l)
+    pure { st with tArr := (src, msg) :: st.tArr }
+  | ["task", "run"] =>
+    if st.kind != "task" then throw (.badop s!"{l}: no task")
+    let arrivals := st.tArr.reverse
+    let some k := obs.head?.bind String.toNat? | throw (.specfail "task-total" s!"the task failed: {obs}")
+    let toks := obs.drop 1
+    if k != toks.length then throw (.badop l)
+    let raw := arrivals.map (fun a => (a.1, s!"{a.2.time} {a.2.tags} {a.2.fields}"))
+    let seqs := (List.range st.jcfg.parents).map (fun i => (raw.filter (·.1 == i)).map (·.2))
+    if st.tKind == "join" then
+      let steps := arrivals.map (fun a => (a.1, a.2.grp, a.2.time))
+      if !decide (Spec.joinOrdered st.jcfg steps) then throw (.badop s!"{l}: unordered parent in a task case")
+      let got := sortStrings toks
+      let want := sortStrings ((Spec.joinOutput st.jcfg arrivals).map renderOut)
+      if want != got then throw (.specfail "join-pairs-by-occurrence" s!"real task: spec {want} observed {got}")
+      -- model on the WRITE order; any interleaving gives the same multiset
+      let mut nd := JNode.init
+      let mut sets : List (JSet JMsg) := []
+      for (src, msg) in arrivals do
+        let (nd', ss, stt) := nd.point st.jcfg src msg
+        if stt != .ok then throw (.mismatch s!"{l}: model status {statusTok stt}")
+        nd := nd'; sets := sets ++ ss
+      let (_, ss, stt) := JNode.finish nd.groups
+      if stt != .ok then throw (.mismatch s!"{l}: model status {statusTok stt}")
+      let mdl := sortStrings (((sets ++ ss).filterMap (joinIntoPoint st.jcfg)).map renderOut)
+      if mdl != got then throw (.mismatch s!"real task join: model {mdl} observed {got}")
+      let r : RunRec := { cfg := st.tCfgText, seqs := seqs, out := got }
+      match crossCheck st r with
+      | some d => throw (.specfail "join-interleaving-independent" d)
+      | none => pure ()
+      let st := addBrs st (["task-join"] ++ (if st.runs.any (fun p => p.cfg == r.cfg && p.seqs == r.seqs) then ["task-second-interleaving"] else []))
+      pure { st with runs := r :: st.runs, nontrivial := st.nontrivial || !got.isEmpty }
+    else
+      -- union: identity of a point = its field `id`
+      let idOf (m : JMsg) : Nat := ((slookup "id" m.fields).bind (fun v => (v.drop 2).toString.toNat?)).getD 0
+      let arrU : List (Nat × UMsg) := arrivals.map (fun a =>
+        (a.1, Union.renamed st.uRename { time := a.2.time, id := idOf a.2, kind := 0, name := a.2.name }))
+      let mut tagged : List (Nat × UMsg) := []
+      for tok in toks do
+        match tok.splitOn ";" with
+        | ["P", name, t, _, _, _, fields] =>
+          let some name := unesc name | throw (.badop l)
+          let some t := t.toInt? | throw (.badop l)
+          let some fs := parsePairs fields | throw (.badop l)
+          let id := ((slookup "id" fs).bind (fun v => (v.drop 2).toString.toNat?)).getD 0
+          match arrU.find? (fun a => a.2.id == id) with
+          | some a => tagged := tagged ++ [(a.1, { a.2 with time := t, name := name })]
+          | none => throw (.specfail "union-exactly-once" s!"real task: emitted a point nobody delivered: {tok}")
+        | _ => throw (.badop l)
+      if !decide (Spec.unionExactlyOnceInOrder st.jcfg.parents arrU tagged) then
+        throw (.specfail "union-exactly-once-in-order-flush" s!"real task: delivered {uRenderOut arrU} emitted {uRenderOut tagged}")
+      if decide (Spec.parentsOrdered st.jcfg.parents arrU) && !decide (Spec.unionSorted tagged) then
+        throw (.specfail "union-sorted" s!"real task: emitted {uRenderOut tagged}")
+      let (_, mo) := (Union.run st.uRename st.jcfg.parents (arrivals.map (fun a =>
+        (a.1, ({ time := a.2.time, id := idOf a.2, kind := 0, name := a.2.name } : UMsg)))) : UState (WCQ UMsg) × _)
+      let canon (o : List (Nat × UMsg)) := sortStrings (o.map (fun p => s!"{p.1}:{p.2.id}:{p.2.time}:{esc p.2.name}"))
+      if canon mo != canon tagged then throw (.mismatch s!"real task union: model {canon mo} observed {canon tagged}")
+      let st := addBr st "task-union"
+      pure { st with nontrivial := st.nontrivial || (tagged.map (·.1)).eraseDups.length ≥ 2 }
   | _ => throw (.badop l)
 where
   judgeUnion (st : St) (l : String) (obs : List String) (s' : UState (WCQ UMsg)) (out : List (Nat × UMsg)) (ok : Bool) (fin : Bool) :
